@@ -33,6 +33,10 @@ const SCRIPT: usize = 3;
 static mut NEXT_KIND: [u8; SCRIPT] = [0; SCRIPT];
 static mut NEXT_ID: [u64; SCRIPT] = [0; SCRIPT];
 static mut POLLS: usize = 0;
+/// how many in-flight requests the inner channel RELEASES at the start of its k-th poll, before it
+/// does what NEXT_KIND says: the real BaseChannel::poll_next processes pending cancellations and
+/// expirations and then reads the transport in the same call.  0 in the base harnesses.
+static mut NEXT_RELEASE: [u8; SCRIPT] = [0; SCRIPT];
 /// sink readiness at its k-th poll_ready: 0 = Ready, 1 = Pending, 2 = error
 static mut READY_KIND: [u8; SCRIPT] = [0; SCRIPT];
 static mut READY_POLLS: usize = 0;
@@ -68,6 +72,7 @@ impl Stream for M {
         let k = unsafe { POLLS };
         assert!(k < SCRIPT);
         unsafe { POLLS += 1; }
+        unsafe { let rel = NEXT_RELEASE[k] as usize; IN_FLIGHT -= if rel < IN_FLIGHT { rel } else { IN_FLIGHT }; }
         match unsafe { NEXT_KIND[k] } {
             0 => {
                 let id = unsafe { NEXT_ID[k] };
@@ -128,10 +133,22 @@ fn script() {
     assume(unsafe { NEXT_KIND[SCRIPT - 1] } != 0);
 }
 
+/// Additionally lets the inner channel release up to 2 requests (Cancel / expiry processed) at the
+/// start of each of its polls.
+fn script_with_releases() {
+    let mut i = 0;
+    while i < SCRIPT {
+        unsafe { NEXT_RELEASE[i] = any_u8(); assume(NEXT_RELEASE[i] <= 2); }
+        i += 1;
+    }
+}
+
 /// One poll of the limited channel from an arbitrary state; everything the property says about
 /// what that poll may do.
-fn one_poll(limit: usize, start_in_flight: usize) {
+fn one_poll(limit: usize, start_in_flight: usize) { one_poll_rel(limit, start_in_flight, false) }
+fn one_poll_rel(limit: usize, start_in_flight: usize, releases: bool) {
     script();
+    if releases { script_with_releases(); }
     unsafe { IN_FLIGHT = start_in_flight; }
     let mut ch = MaxRequests::new(M { config: Config { pending_response_buffer: 1 } }, limit);
     let r = {
@@ -155,7 +172,7 @@ fn one_poll(limit: usize, start_in_flight: usize) {
             let (ptag, pid, pinflight) = unsafe { LOG[i - 1] };
             assert!(ptag == T_YIELDED_BY_INNER && pid == id);
             // refused only because `limit` requests really were in flight when it was read
-            assert!(pinflight >= limit);
+            assert!(pinflight >= limit, "refused although fewer than the limit were in flight when it was read");
             assert!(i + 1 == n || unsafe { LOG[i + 1].0 } == T_YIELDED_BY_INNER);
             let _ = inflight;
         }
@@ -210,6 +227,8 @@ c12_harnesses! {
     fn c12_limit2_one_in_flight() { one_poll(2, 1) }
     fn c12_limit2_full() { one_poll(2, 2) }
     fn c12_limit2_over() { one_poll(2, 3) }
+    fn c12_limit1_busy_release_in_poll() { one_poll_rel(1, 1, true) }
+    fn c12_limit2_full_release_in_poll() { one_poll_rel(2, 2, true) }
 }
 
 #[cfg(all(test, verif_replay))]
